@@ -460,7 +460,8 @@ def run_check(prop, tier, seed, replay=None):
     def still_bad_factory(want_oracle):
         def still_bad(c):
             r = evaluate(prop, [c], driver)[0]
-            return (r.oracle is not None) if want_oracle else (not r.agrees)
+            # never shrink an unlisted violation into one that a known finding explains
+            return (r.oracle is not None and not (r.agrees and r.hit)) if want_oracle else (not r.agrees)
         return still_bad
 
     if real:
